@@ -60,15 +60,15 @@ theorem provider_read_only :
     (class E: spare capacity of option / audience slices; the call-local JWKS decode target) has, after the program,
     exactly the value it had before. -/
 theorem c20_globals_unchanged_partial (prog : List Step) (m m' : Mem) (h : RunRel Gen.facts prog m m')
-    (c : Cell) (hs : c.shared = true) (hk : c ∉ knownCells) : m' c = m c := by
+    (c : Cell) (hs : c.shared = true) (hk : c.norm ∉ knownCells) : m' c = m c := by
   apply run_shared_frame Gen.facts prog m m' h c hs
   intro hmem
   apply hk
-  obtain ⟨p, hp, rfl⟩ := List.mem_map.mp hmem
+  obtain ⟨p, hp, hpc⟩ := List.mem_map.mp hmem
   have hx := hidden_exact
   simp only [sameSet, Bool.and_eq_true, List.all_eq_true] at hx
   have := hx.1 p hp
-  exact List.mem_map.mpr ⟨p, by simpa using this, rfl⟩
+  exact List.mem_map.mpr ⟨p, by simpa using this, hpc⟩
 
 /-- no audited cell is a package-level variable -/
 theorem knownCells_no_global (g : String) (p : List String) : Cell.global g p ∉ knownCells := by
@@ -83,6 +83,18 @@ theorem c20_package_defaults_unchanged (prog : List Step) (m m' : Mem) (h : RunR
     (g : String) (p : List String) : m' (.global g p) = m (.global g p) :=
   c20_globals_unchanged_partial prog m m' h (.global g p) rfl (knownCells_no_global g p)
 
+/-- no audited cell is a closure-captured variable -/
+theorem knownCells_no_captured (k : Nat) (o v : String) (p : List String) : Cell.captured k o v p ∉ knownCells := by
+  simp [knownCells, knownHidden, knownE, auditedHidden]
+
+/-- **C20, closure-captured state (full strength)**: for EVERY program, every variable captured by a closure inside an
+    option / issuer-factory value — whichever value, made by whichever library function, handed to however many
+    constructions in whatever order — has, after the program, exactly the value it had before: no construction and no
+    API call writes state that lives in a value shared between constructions.  No exclusion. -/
+theorem c20_captured_state_unchanged (prog : List Step) (m m' : Mem) (h : RunRel Gen.facts prog m m')
+    (k : Nat) (o v : String) (p : List String) : m' (.captured k o v p) = m (.captured k o v p) :=
+  c20_globals_unchanged_partial prog m m' h (.captured k o v p) rfl (knownCells_no_captured 0 o v p)
+
 /-- the element types of the slices whose spare capacity may be written (class E) and the call-local decode target -/
 def exemptTypes : List String := ["[]rp.VerifierOption", "[]string", "[]op.ServerOption", "rp.jsonWebKeySet"]
 
@@ -94,7 +106,7 @@ theorem c20_supplied_objects_unchanged (prog : List Step) (m m' : Mem) (h : RunR
   apply c20_globals_unchanged_partial prog m m' h (.supplied t p) rfl
   intro hmem
   apply ht
-  simp [knownCells, knownHidden, knownE, auditedHidden] at hmem
+  simp [knownCells, knownHidden, knownE, auditedHidden, Cell.norm] at hmem
   simp only [exemptTypes, List.mem_cons]
   rcases hmem with h | h | h | h <;> simp [h.1]
 
@@ -102,7 +114,7 @@ theorem c20_supplied_objects_unchanged (prog : List Step) (m m' : Mem) (h : RunR
     no package-level variable, and no caller-supplied object outside the audited cells (class E) — so whatever another
     instance reads is unchanged. -/
 theorem c20_instances_isolated_partial (st : Step) (m m' : Mem) (h : StepRel Gen.facts st m m') (c : Cell)
-    (hc : (∃ j t f, c = .own j t f ∧ j ≠ st.inst.id) ∨ (c.shared = true ∧ c ∉ knownCells)) : m' c = m c := by
+    (hc : (∃ j t f, c = .own j t f ∧ j ≠ st.inst.id) ∨ (c.shared = true ∧ c.norm ∉ knownCells)) : m' c = m c := by
   rcases hc with ⟨j, t, f, rfl, hj⟩ | ⟨hs, hk⟩
   · exact own_cells_of_step Gen.facts st m m' h j t f hj
   · exact c20_globals_unchanged_partial [st] m m' (.cons h (.nil m')) c hs hk
@@ -121,7 +133,10 @@ def modelObs (F : Facts) (st : Step) : Obs :=
   let cs := (stepCells F st).filter Cell.shared
   { globalsChanged := (cs.filter fun c => match c with | .global .. => true | _ => false).map Cell.name,
     suppliedChanged := (cs.filter fun c => match c with | .supplied .. => true | _ => false).map Cell.name,
-    behaviourChanged := [], othersChanged := [], races := 0, panicked := false }
+    behaviourChanged := [], othersChanged := [],
+    -- state captured inside a shared option / issuer-factory value: every other holder of the value behaves differently
+    instanceBehaviourChanged := (cs.filter fun c => match c with | .captured .. => true | _ => false).map Cell.name,
+    races := 0, panicked := false }
 
 /-- the model satisfies the monitor on every step that touches no shared cell -/
 theorem c20_model_satisfies_monitor (F : Facts) (st : Step) (h : (stepCells F st).filter Cell.shared = []) :
@@ -135,12 +150,29 @@ theorem c20_model_never_changes_defaults (st : Step) : (modelObs Gen.facts st).g
   have hmem := stepCells_hidden Gen.facts st c hc hs
   have hx := hidden_exact
   simp only [sameSet, Bool.and_eq_true, List.all_eq_true] at hx
-  obtain ⟨p, hp, rfl⟩ := List.mem_map.mp hmem
-  have hk : p.2 ∈ knownCells := List.mem_map.mpr ⟨p, by simpa using hx.1 p hp, rfl⟩
-  cases hq : p.2 with
-  | global g q => exact absurd (hq ▸ hk) (knownCells_no_global g q)
+  obtain ⟨p, hp, hpc⟩ := List.mem_map.mp hmem
+  have hk : c.norm ∈ knownCells := List.mem_map.mpr ⟨p, by simpa using hx.1 p hp, hpc⟩
+  cases c with
+  | global g q => exact absurd hk (knownCells_no_global g q)
   | supplied t q => simp
   | own i t f => simp
+  | captured k o v q => simp
+
+/-- the model never predicts that a step changes how ANOTHER holder of a shared option / issuer-factory value behaves:
+    no step writes a closure-captured cell of a shared value (this is what seeded change C20-D breaks) -/
+theorem c20_model_never_changes_instance_behaviour (st : Step) : (modelObs Gen.facts st).instanceBehaviourChanged = [] := by
+  simp only [modelObs, List.map_eq_nil_iff, List.filter_eq_nil_iff, List.mem_filter]
+  rintro c ⟨hc, hs⟩
+  have hmem := stepCells_hidden Gen.facts st c hc hs
+  have hx := hidden_exact
+  simp only [sameSet, Bool.and_eq_true, List.all_eq_true] at hx
+  obtain ⟨p, hp, hpc⟩ := List.mem_map.mp hmem
+  have hk : c.norm ∈ knownCells := List.mem_map.mpr ⟨p, by simpa using hx.1 p hp, hpc⟩
+  cases c with
+  | global g q => simp
+  | supplied t q => simp
+  | own i t f => simp
+  | captured k o v q => exact absurd hk (knownCells_no_captured 0 o v q)
 
 /-! ## the repaired findings: the steps that used to violate the property touch no shared cell any more
     (concrete regression facts on the regenerated lists; reverting a repair in the source makes the corresponding
@@ -192,6 +224,55 @@ theorem c20e_witness :
 
 /-- the audited sites really make the unrestricted source fail the discipline check -/
 theorem c20_full_discipline_fails : disciplined Gen.facts = false := by decide +kernel
+
+/-! ## closure-captured state: what the theorems above exclude, made concrete (seeded change C20-D)
+
+    `factsD` = the regenerated facts plus the two write sites that factgen extracts from the C20-D variant of
+    `issuerFromForwardedOrHost` (the closure returned by `op.IssuerFromHost` / `op.IssuerFromForwardedOrHost` stores
+    `path` and `allowInsecure` in the `issuerConfig` captured by the factory). -/
+
+def siteD (f : String) : WriteSite :=
+  { file := "pkg/op/config.go", fn := "op.issuerFromForwardedOrHost$ret", meth := "issuerFromForwardedOrHost", line := 112, lhs := "c." ++ f,
+    root := .captured "op.issuerFromForwardedOrHost" "c" 0, path := [f], op := .assign, phase := .func, guard := .none }
+
+def factsD : Facts :=
+  { Gen.facts with
+    sites := Gen.facts.sites ++ [siteD "path", siteD "allowInsecure"],
+    reach := [("op.IssuerFromHost", ["op.issuerFromForwardedOrHost"]), ("op.IssuerFromForwardedOrHost", ["op.issuerFromForwardedOrHost"]),
+              ("op.issuerFromForwardedOrHost", ["op.issuerFromForwardedOrHost"]),
+              ("op.NewDynamicOpenIDProvider", ["op.NewProvider", "op.issuerFromForwardedOrHost"])] ++ Gen.facts.reach }
+
+def provInsecureShared : Inst :=
+  { id := 1, ty := "op.Provider", entry := "op.NewProvider", opts := ["op.WithAllowInsecure"], vals := [("op.IssuerFromHost", 1)] }
+def provSecureShared : Inst := { id := 2, ty := "op.Provider", entry := "op.NewProvider", opts := [], vals := [("op.IssuerFromHost", 1)] }
+def provSecureOwn : Inst := { id := 3, ty := "op.Provider", entry := "op.NewProvider", opts := [], vals := [("op.IssuerFromHost", 7)] }
+def provFresh : Inst := { id := 4, ty := "op.Provider", entry := "op.NewDynamicOpenIDProvider", opts := [] }
+
+/-- with C20-D the audited list is no longer exact: `hidden_exact` (and with it every frame theorem) does not go through -/
+example : sameSet (hidden factsD) knownHidden = false := by decide +kernel
+example : ("op.issuerFromForwardedOrHost$ret", Cell.captured 0 "op.issuerFromForwardedOrHost" "c" ["allowInsecure"]) ∈ hidden factsD := by decide +kernel
+example : ("op.issuerFromForwardedOrHost$ret", "c.allowInsecure") ∈ undisciplinedSites factsD := by decide +kernel
+/-- both constructions from value #1 write the SAME cell, a construction from value #7 another one: a cell captured at
+    factory level is shared by exactly the constructions using that factory value -/
+example : Cell.captured 1 "op.issuerFromForwardedOrHost" "c" ["allowInsecure"] ∈ stepCells factsD ⟨.construct, "op.NewProvider", provInsecureShared⟩ ∧
+          Cell.captured 1 "op.issuerFromForwardedOrHost" "c" ["allowInsecure"] ∈ stepCells factsD ⟨.construct, "op.NewProvider", provSecureShared⟩ ∧
+          Cell.captured 1 "op.issuerFromForwardedOrHost" "c" ["allowInsecure"] ∉ stepCells factsD ⟨.construct, "op.NewProvider", provSecureOwn⟩ ∧
+          Cell.captured 7 "op.issuerFromForwardedOrHost" "c" ["allowInsecure"] ∈ stepCells factsD ⟨.construct, "op.NewProvider", provSecureOwn⟩ := by decide +kernel
+/-- a construction that makes its own factory value owns the captured cell: nothing shared is touched -/
+example : Cell.own 4 "closure:op.issuerFromForwardedOrHost" "c" ∈ stepCells factsD ⟨.construct, "op.NewDynamicOpenIDProvider", provFresh⟩ ∧
+          (stepCells factsD ⟨.construct, "op.NewDynamicOpenIDProvider", provFresh⟩).filter Cell.shared = [] := by decide +kernel
+/-- the monitor rejects the model's own observation of the second construction from a shared value under C20-D … -/
+example : monitor (modelObs factsD ⟨.construct, "op.NewProvider", provSecureShared⟩) = some "instance-behaviour-changed" := by decide +kernel
+/-- … and accepts it for the regenerated facts of the current source (same program) -/
+example : monitor (modelObs Gen.facts ⟨.construct, "op.NewProvider", provSecureShared⟩) = none := by decide +kernel
+/-- an observed behaviour change of an earlier instance is a violation -/
+example : monitor { globalsChanged := [], suppliedChanged := [], behaviourChanged := [], othersChanged := [],
+                    instanceBehaviourChanged := ["#1:op.Provider.discovery"], races := 0, panicked := false } = some "instance-behaviour-changed" := by decide
+/-- a variable captured per construction (owner = a function literal, depth 1, or a constructor) is instance-owned whatever
+    values the instance shares -/
+example : siteCells factsD provInsecureShared { siteD "x" with root := .captured "op.issuerFromForwardedOrHost$ret" "allowInsecure" 1 } =
+            [.own 1 "closure:op.issuerFromForwardedOrHost$ret" "allowInsecure"] ∧
+          siteCells factsD provInsecureShared { siteD "x" with root := .captured "op.NewProvider" "o" 0 } = [.own 1 "closure:op.NewProvider" "o"] := by decide +kernel
 
 /-! ## non-vacuity -/
 
